@@ -1,7 +1,7 @@
 (* run_cmd : the single entry point of the extracted model. A command is
    (L (A code :: args)); decoding and encoding are Gallina. *)
 From Coq Require Import List ZArith NArith Bool.
-From BS Require Import Base.Sexp Base.Types Base.Reader Model.Registry Model.SmartQuotes Model.Attrs.
+From BS Require Import Base.Sexp Base.Types Base.Reader Model.Registry Model.SmartQuotes Model.Attrs Model.Heap Model.Edit Model.Build.
 Import ListNotations.
 Open Scope Z_scope.
 
@@ -101,10 +101,89 @@ Definition cmd_c17 (sub : Z) (args : list sexp) : sexp :=
   | _, _ => A (-1)
   end.
 
+(* ---- C01 / C02 / C03: build + edit histories ---- *)
+Definition s_onat (o : option nat) : sexp := sopt snat o.
+Definition s_kind (k : nkind) : sexp :=
+  match k with KTag => A 0 | KStr false => A 1 | KStr true => A 2 | KSoup => A 3 end.
+Definition s_cell (h : heap) (x : nat) : sexp :=
+  let c := h x in
+  L [s_kind (kind c); sbool (dead c); s_onat (par c); slist snat (kids c);
+     s_onat (ps c); s_onat (ns c); s_onat (pe c); s_onat (ne c); sstr (txt c)].
+Definition s_state (s : st) : sexp := slist (s_cell (hp s)) (seq 0 (nxt s)).
+Definition s_payload (p : payload) : sexp :=
+  L [sstr (p_name p); sopt sstr (p_prefix p); sN (p_cls p); sbool (p_void p);
+     slist (spair sstr sstr) (p_attrs p)].
+Definition s_bstate (b : bstate) : sexp :=
+  L [s_state (b_st b); slist (fun x => s_payload (b_pay b x)) (seq 0 (nxt (b_st b)))].
+
+Definition g_cfg (s : sexp) : bconfig :=
+  mkcfg (gopt (glist gstr) (gnth s 0)) (glist gstr (gnth s 1)) (glist (gpair gstr gN) (gnth s 2))
+        (glist gN (gnth s 3)) (gstr (gnth s 4)).
+Definition g_event (s : sexp) : event :=
+  match gL s with
+  | A 0 :: n :: p :: a :: _ => EStart (gstr n) (gopt gstr p) (glist (gpair gstr gstr) a)
+  | A 1 :: n :: p :: _ => EEnd (gstr n) (gopt gstr p)
+  | A 2 :: d :: _ => EData (gstr d)
+  | A 3 :: c :: _ => EEndData (gopt gN c)
+  | _ => EData []
+  end.
+Definition g_arg (s : sexp) : arg :=
+  match gL s with
+  | [A 0; x] => AEl (gnat x)
+  | [A 1; t] => AStr (gstr t)
+  | _ => AStr []
+  end.
+Definition run_op (s : st) (o : sexp) : res st :=
+  match gL o with
+  | [A 0; self; pos; args] => op_insert s (gnat self) (gnat pos) (glist g_arg args)
+  | [A 1; self; a] => op_append s (gnat self) (g_arg a)
+  | [A 2; self; other] => op_extend_tag s (gnat self) (gnat other)
+  | [A 3; self; args] => op_extend_list s (gnat self) (glist g_arg args)
+  | [A 4; self; args] => op_insert_before s (gnat self) (glist g_arg args)
+  | [A 5; self; args] => op_insert_after s (gnat self) (glist g_arg args)
+  | [A 6; x] => op_extract s (gnat x)
+  | [A 7; self; args] => op_replace_with s (gnat self) (glist g_arg args)
+  | [A 8; self; w] => op_wrap s (gnat self) (gnat w)
+  | [A 9; self] => op_unwrap s (gnat self)
+  | [A 10; x] => op_decompose s (gnat x)
+  | [A 11; self; d] => op_clear s (gnat self) (gbool d)
+  | [A 12; self; t] => op_set_string s (gnat self) (gstr t)
+  | [A 13; self] => op_smooth s (gnat self)
+  | [A 14; k; label] =>
+      let kd := match gZ k with 0 => KTag | 1 => KStr false | 2 => KStr true | _ => KSoup end in
+      Ok (fst (alloc s kd (gstr label)))
+  | _ => ValueError
+  end.
+Fixpoint run_ops (s : st) (ops : list sexp) : list sexp :=
+  match ops with
+  | [] => []
+  | o :: ops' =>
+      match run_op s o with
+      | Ok s' => L [A 0; s_state s'] :: run_ops s' ops'
+      | ValueError => L [A 1; s_state s] :: run_ops s ops'
+      end
+  end.
+(* (30 cfg events) -> final build state with payloads *)
+Definition cmd_build (args : list sexp) : sexp :=
+  match args with
+  | c :: evs :: _ => s_bstate (feed (g_cfg c) (glist g_event evs))
+  | _ => A (-1)
+  end.
+(* (10 cfg events ops) -> (build-state (status state)...) *)
+Definition cmd_history (args : list sexp) : sexp :=
+  match args with
+  | c :: evs :: ops :: _ =>
+      let b := feed (g_cfg c) (glist g_event evs) in
+      L (s_state (b_st b) :: run_ops (b_st b) (gL ops))
+  | _ => A (-1)
+  end.
+
 Definition run_cmd (c : sexp) : sexp :=
   match c with
   | L (A code :: args) =>
       match code with
+      | 10 => cmd_history args
+      | 30 => cmd_build args
       | 20 => cmd_c20_lookup args
       | 21 => cmd_c20_construct args
       | 170 => cmd_c17 0 args
